@@ -293,9 +293,12 @@ func IsFqdn(s string) bool {
 
 	// Otherwise we have to check if the dot is escaped or not by checking if
 	// there are an odd or even number of escape sequences before the dot.
-	i := strings.LastIndexFunc(s, func(r rune) bool {
-		return r != '\\'
-	})
+	// Count octets, not runes: the octet before the backslashes may be the
+	// end of a multi-octet UTF-8 sequence.
+	i := len(s) - 1
+	for i >= 0 && s[i] == '\\' {
+		i--
+	}
 	return (len(s)-i)%2 != 0
 }
 
